@@ -45,6 +45,9 @@ from vlib.gen import c17_models as G
 # *including leading zeros*, so a fixed-notation repr in [1e-4, 1) ("0.0007726439553245901") is truncated with an
 # absolute error < 1e-16, i.e. up to 1e-12 relative (measured 1.17e-13); elsewhere a few ulp.
 RTOL_TEXT = 1e-12
+# ... which is a defect of its own (D16b in C16: read_csv without float_precision="round_trip"); the strict
+# text-round-trip tolerance of the brief is checked under separate ``*.float_precision`` clauses.
+RTOL_TEXT_STRICT = 1e-13
 RTOL_OBJ = 1e-12  # objective of the reloaded model
 RTOL_ASCII = 1e-10  # "%.10e"
 
@@ -282,6 +285,8 @@ def prop_model(case):
         check(d is None, "model.scheme_model", lambda: f"model of the loaded scheme differs at {d}")
         d = parameters_diff(params, s2.parameters)
         check(d is None, "model.scheme_parameters", lambda: f"parameters of the loaded scheme differ: {d}")
+        d = parameters_diff(params, s2.parameters, RTOL_TEXT_STRICT)
+        check(d is None, "model.scheme_float_precision", lambda: f"parameters of the loaded scheme differ by more than 1e-13: {d}")
         check(sorted(s2.data) == sorted(data), "model.scheme_data", lambda: f"dataset labels {sorted(s2.data)} vs {sorted(data)}")
         for lbl in data:
             d = dataset_diff(data[lbl], s2.data[lbl], bitwise=True)
@@ -428,21 +433,29 @@ def build_result_scheme(case):
 
 def compare_result(orig, expect_data, loaded, suffix=""):
     """orig: result that was saved; expect_data: {label: dataset expected on disk}; loaded: load_result(...)."""
+    _compare_result(orig, expect_data, loaded, suffix, RTOL_TEXT, strict=False)
+    _compare_result(orig, expect_data, loaded, suffix, RTOL_TEXT_STRICT, strict=True)
+
+
+def _compare_result(orig, expect_data, loaded, suffix, rtol, strict):
+    def cl(name):
+        return ("result.float_precision" if strict else name) + suffix
+
     for name in ("initial_parameters", "optimized_parameters"):
-        d = parameters_diff(getattr(orig, name), getattr(loaded, name))
-        check(d is None, "result.parameters" + suffix, lambda: f"{name}: {d}")
+        d = parameters_diff(getattr(orig, name), getattr(loaded, name), rtol)
+        check(d is None, cl("result.parameters"), lambda: f"{name}: {d}")
     h0, h1 = orig.parameter_history, loaded.parameter_history
     check(
         list(map(str, h0.parameter_labels)) == list(map(str, h1.parameter_labels))
         and h0.number_of_records == h1.number_of_records
-        and arrays_close(np.array(h0.parameters), np.array(h1.parameters), RTOL_TEXT),
-        "result.parameter_history" + suffix,
+        and arrays_close(np.array(h0.parameters), np.array(h1.parameters), rtol),
+        cl("result.parameter_history"),
         lambda: f"{list(h0.parameter_labels)} {np.array(h0.parameters)!r} vs {list(h1.parameter_labels)} {np.array(h1.parameters)!r}",
     )
     o0, o1 = orig.optimization_history.data, loaded.optimization_history.data
     check(
-        list(o0.columns) == list(o1.columns) and o0.index.name == o1.index.name and list(o0.index) == list(o1.index) and arrays_close(o0.values, o1.values, RTOL_TEXT),
-        "result.optimization_history" + suffix,
+        list(o0.columns) == list(o1.columns) and o0.index.name == o1.index.name and list(o0.index) == list(o1.index) and arrays_close(o0.values, o1.values, rtol),
+        cl("result.optimization_history"),
         lambda: f"{o0!r}\nvs\n{o1!r}",
     )
     for name in scalar_fields(orig):
@@ -458,8 +471,10 @@ def compare_result(orig, expect_data, loaded, suffix=""):
         check(d is None, "result.scheme_options" + suffix, lambda: f"scheme field differs after load_result: {d}")
     d = first_diff(orig.scheme.model.as_dict(), loaded.scheme.model.as_dict())
     check(d is None, "result.scheme_model" + suffix, lambda: f"model differs at {d}")
-    d = parameters_diff(orig.scheme.parameters, loaded.scheme.parameters)
-    check(d is None, "result.parameters" + suffix, lambda: f"scheme.parameters: {d}")
+    d = parameters_diff(orig.scheme.parameters, loaded.scheme.parameters, rtol)
+    check(d is None, cl("result.parameters"), lambda: f"scheme.parameters: {d}")
+    if strict:
+        return
     check(sorted(loaded.data) == sorted(expect_data), "result.datasets" + suffix, lambda: f"labels {sorted(loaded.data)} vs {sorted(expect_data)}")
     for lbl, exp in expect_data.items():
         d = dataset_diff(exp, loaded.data[lbl], bitwise=True)
@@ -541,7 +556,7 @@ SPECIALS = [0.0, -0.0, float("nan"), float("inf"), -float("inf"), 5e-324, 2.2250
 
 
 @st.composite
-def axis_values(draw, n, kinds=("linspace", "random", "ints", "descending", "tiny", "huge", "repeated", "negative")):
+def axis_values(draw, n, kinds=("linspace", "random", "ints", "descending", "tiny", "huge", "repeated", "negative", "milli")):
     kind = draw(st.sampled_from(kinds))
     seed = draw(st.integers(0, 2**32 - 1))
     return {"kind": kind, "seed": seed, "n": n}
@@ -564,6 +579,8 @@ def build_axis(a):
         v = np.sort(rng.uniform(1, 9, n)) * 1e12
     elif kind == "negative":
         v = np.sort(rng.uniform(-1e4, -1e-3, n))
+    elif kind == "milli":  # fixed-notation reprs with leading zeros
+        v = np.sort(rng.uniform(1e-4, 1e-1, n))
     else:  # repeated values, unsorted
         v = rng.choice(rng.uniform(0, 10, max(1, n // 2)), n)
     return np.asarray(v, dtype=np.float64)
@@ -635,7 +652,7 @@ def ascii_cases(draw):
     ns = draw(st.integers(1, 12))
     return {
         "format": draw(st.sampled_from(["time_explicit", "wavelength_explicit"])),
-        "time": draw(axis_values(nt, kinds=("linspace", "random", "ints", "tiny", "huge", "negative"))),
+        "time": draw(axis_values(nt, kinds=("linspace", "random", "ints", "tiny", "huge", "negative", "milli"))),
         "spectral": draw(axis_values(ns, kinds=("linspace", "random", "ints", "descending", "huge"))),
         "seed": draw(st.integers(0, 2**32 - 1)),
         "log10_scale": draw(st.sampled_from([0, 0, -100, -7, 5, 100])),
@@ -681,6 +698,8 @@ def prop_ascii(case):
         want, have = vals[explicit]
         check(have.dtype.kind == "f" and have.shape == want.shape and arrays_close(want, have, RTOL_TEXT), "ascii.explicit_axis" + sfx,
               lambda: f"{explicit} axis written {want.tolist()} read back {have.tolist()} (dtype {have.dtype})")
+        check(arrays_close(want, have, RTOL_TEXT_STRICT), "ascii.float_precision" + sfx,
+              lambda: f"{explicit} axis (written with full precision) {want.tolist()} read back {have.tolist()}")
         want, have = vals[secondary]
         check(have.dtype.kind == "f" and have.shape == want.shape and arrays_close(want, have, RTOL_ASCII), "ascii.secondary_axis" + sfx,
               lambda: f"{secondary} axis written {want.tolist()} read back {have.tolist()} (dtype {have.dtype})")
